@@ -633,6 +633,34 @@ def fit_latlon(ctx, sill):
     ctx.ensure("ydata-unchanged", ctx.eq(rec["ydata"], Y2))
 
 
+# --- directional data: one row per direction, whatever the memory layout of the array ---------------------------
+@contract(P, "fit_variogram/directional-data-rows-are-directions-for-every-memory-layout",
+          params=[{"layout": l, "dim": d} for l in ("C", "F", "transposed-view", "nested-list") for d in (2, 3)],
+          functions=FN + ["covmodel/fit.py:_check_vario"], nsamples=2, search=20, timeout=20)
+def fit_layout(ctx, layout, dim):
+    """`y_data`: '(dim, n_bins) for directional variograms: one variogram per main axis' -- this is about the
+    array's INDEX order; a Fortran-ordered array or a transposed view of an (n_bins, dim) table describes the
+    same data as the C-ordered copy"""
+    nb = 2
+    vals = [[ctx.real("y%d_%d" % (d, i), lo=0.2 + 0.3 * i + 0.05 * d, hi=0.4 + 0.3 * i + 0.05 * d) for i in range(nb)]
+            for d in range(dim)]
+    dt = object if ctx.mode == "sym" else float
+    c = np.array(vals, dtype=dt)
+    if layout == "C":
+        y = c
+    elif layout == "F":
+        y = np.asfortranarray(c)
+    elif layout == "transposed-view":
+        y = np.array([[vals[d][i] for d in range(dim)] for i in range(nb)], dtype=dt).T     # (dim, nb) view
+    else:
+        y = [list(r) for r in vals]
+    R = run_fit(ctx, "Gaussian", dim, {}, "none", 1, anis_mode="fit", directional=True, x=X2, y=y, check=())
+    rec = R["ghost"].rec
+    flat = [vals[d][i] for d in range(dim) for i in range(nb)]
+    ctx.ensure("ydata=direction-after-direction", ctx.And(ctx.shape_eq(rec["ydata"], (dim * nb,)), ctx.eq(rec["ydata"], arr(ctx, flat))))
+    ctx.ensure("xdata=bin-centres-tiled-per-direction", ctx.eq(rec["xdata"], list(X2) * dim))
+
+
 # --- r2 score ---------------------------------------------------------------------------------------
 @contract(P, "fit_variogram/r2-score", params=[{"data": d} for d in ("iso", "dir", "latlon")], functions=FN,
           nsamples=2, search=20, timeout=20)
